@@ -34,6 +34,9 @@ type ruleLoader struct {
 	// the rule cannot be added if there is more than one node suitable for this
 	// in the row.
 	nodesPerCurrentLineCount uint
+
+	// onNote if set, takes the note instead of the node.
+	onNote func(string)
 }
 
 func newRuleLoader(
@@ -88,7 +91,9 @@ func (rl *ruleLoader) commentTextBegin(lex lexeme.LexEvent) {
 func (rl *ruleLoader) commentTextEnd(lex lexeme.LexEvent) {
 	switch lex.Type() {
 	case lexeme.InlineAnnotationTextEnd, lexeme.MultiLineAnnotationTextEnd:
-		if rl.node != nil {
+		if rl.onNote != nil {
+			rl.onNote(lex.Value().TrimSpaces().String())
+		} else if rl.node != nil {
 			rl.node.SetComment(lex.Value().TrimSpaces().String())
 		}
 		rl.stateFunc = rl.endOfLoading
